@@ -301,8 +301,9 @@ class Runner(object):
         elif kind == 'reopen':
             if hasattr(cache, 'cleanup'):
                 cache.cleanup()
+            # no sweep here: the next operation of the history is the first thing the fresh object does (a sweep would
+            # open every level / bundle first)
             self.cache = self.handles[self.cur] = self.make()
-            self.sweep(what)
         elif kind == 'clock':
             if self.clock is not None:
                 self.clock.now = max(1.0e9, self.clock.now + op[1])
@@ -313,7 +314,6 @@ class Runner(object):
             if self.handles[self.cur] is None:
                 self.handles[self.cur] = self.make()
             self.cache = self.handles[self.cur]
-            self.sweep(what)
         else:
             raise ValueError(op)
 
